@@ -380,7 +380,7 @@ fn decode(src: &mut Src, tier: Tier) -> Case {
 		cmds.push((at, cmd));
 	}
 	cmds.sort_by_key(|(at, _)| *at);
-	Case {
+	let case = Case {
 		len,
 		seed: src.raw() | 1,
 		sound_rate,
@@ -397,7 +397,26 @@ fn decode(src: &mut Src, tier: Tier) -> Case {
 		cmds,
 		dec_a: gen_decoder(src),
 		dec_b: gen_decoder(src),
+	};
+	// half of the long cases get a fade that outlasts what the ring holds when it begins (a stop,
+	// pause or volume tween of 17 000 .. 30 000 device frames near the start): the decoder has to
+	// keep delivering while the sound fades
+	let mut case = case;
+	if long && src.chance(1, 2) {
+		let tw = TweenSpec {
+			start: StartSpec::Immediate,
+			dur_s: src.usize_in(17000, 30000) as f64 / case.device_rate as f64,
+			easing: kira::Easing::Linear,
+		};
+		let cmd = match src.weighted(&[3, 2, 1]) {
+			0 => Cmd::Stop(tw),
+			1 => Cmd::Pause(tw),
+			_ => Cmd::Volume(-40.0, tw),
+		};
+		case.cmds.push((src.index(case.chunks.len().min(4)), cmd));
+		case.cmds.sort_by_key(|(at, _)| *at);
 	}
+	case
 }
 
 impl Property for C09 {
